@@ -37,6 +37,8 @@ type Opts struct {
 	// model) only every n-th step and after the last one; results, held set and
 	// counters are still checked after every step. For histories with hundreds of entries.
 	ObserveEvery int
+	// RIBOpts are further options for rib.New (e.g. rib.DisableRIBCheckFn()).
+	RIBOpts []rib.RIBOpt
 }
 
 // Trace summarises what happened, for non-triviality rules.
@@ -93,6 +95,7 @@ func NewRIB(fwdRefs bool, o Opts) *rib.RIB {
 	if !fwdRefs {
 		ro = append(ro, rib.DisableForwardReferences())
 	}
+	ro = append(ro, o.RIBOpts...)
 	r := rib.New("DEFAULT", ro...)
 	if o.Setup != nil {
 		o.Setup(r)
